@@ -1,4 +1,4 @@
-// finding=F115 property=C16 status=known kind=exec-msl
+// finding=F115 property=C16 status=fixed kind=exec-msl
 // MSL: simd (namespace of the included <simd/simd.h>) and ulong are emitted unchanged as user identifiers
 // expect 0,0[0] = 8
 @group(0) @binding(0) var<storage,read_write> o: array<u32,64>;
